@@ -5,11 +5,14 @@
    bound synthesised by expandPessimisticConstraint, a Version literal with
    original = Sprintf("%d.%d.0", major, minor) that never went through NewVersion. *)
 From Verif.Base Require Import Bytes GoNum Ord.
+From Verif.Gen Require Operators.
 From Verif.Eco Require Import RangeCore.
 From Verif.Eco.Hex Require Version.
 
 (* constraintPattern ^(>=|<=|>|<|=|~>)?(.+)$ : alternation order *)
-Definition hex_ops : list bytes := [$">="; $"<="; $">"; $"<"; $"="; $"~>"].
+(* the list is generated from the Go source on every run (tools/gen -> Gen/Operators.v) *)
+Definition hex_ops : list bytes :=
+  Eval cbv delta [Verif.Gen.Operators.hex_ops] in Verif.Gen.Operators.hex_ops.
 
 Inductive bound :=
 | BText (t : bytes)              (* parsed by NewVersion from this (trimmed) text *)
